@@ -12,6 +12,7 @@ from trie.fog import HexaryTrieFog
 from trie.typing import Nibbles
 
 from ..core import HarnessError, Violation, deep
+from ..hworld import in_handler
 from .c09 import fog_members
 
 ID = "C11"
@@ -96,7 +97,8 @@ class World:
         for i, cmd in enumerate(cmds):
             self.idx = i
             self.ev += 1
-            out = getattr(self, "op_" + cmd["op"])(cmd)
+            fn = getattr(self, "op_" + cmd["op"])
+            out = in_handler(fn, cmd) if cmd.get("hdl") else fn(cmd)
             self.obs.append((i, cmd["op"], out, tuple(tuple(r.members) for r in self.reps)))
             self.st.rec(self.ev, cmd["op"], cmd.get("r"), out)
             self.st.sched_rec(cmd["op"], cmd.get("r"), out)
@@ -386,8 +388,12 @@ def generate(rng):
         if k < 0.35 and segs:
             return {"prefix": prefix, "segs": segs + [rng.choice(segs)]}
         if k < 0.7:
-            base = rng.choice(segs) if segs else [rng.randrange(16)]
-            return {"prefix": prefix, "segs": segs + [base + [rng.randrange(16)]] + ([] if segs else [base])}
+            base = rng.choice(segs) if segs else [rng.randrange(16) for _ in range(rng.choice([1, 1, 2, 7, 8, 9]))]
+            tail = [rng.randrange(16) for _ in range(rng.choice([1, 1, 2, 6, 7, 8, 15]))]
+            extra = [base + tail] + ([] if segs else [base])
+            if rng.random() < 0.5:
+                return {"prefix": prefix, "segs": extra + segs}
+            return {"prefix": prefix, "segs": segs + extra}
         return {"prefix": prefix + [rng.randrange(16)] * rng.randint(1, 2), "segs": segs}
 
     for r in (0, 1):
